@@ -9,6 +9,7 @@ import (
 	"os"
 	"path/filepath"
 	"reflect"
+	"regexp"
 	"sort"
 	"strconv"
 	"strings"
@@ -367,7 +368,41 @@ func init() {
 		"sync/atomic.CompareAndSwapUint64": atomicCAS,
 	}
 	initSymIntrinsics()
+	// regexp on concrete arguments: native (used by signature.ValidName/CleanName)
+	models["regexp.MustCompile"] = func(m *Machine, c *frame, fn *ssa.Function, a []value) value {
+		p, ok := a[0].(strV).Concrete()
+		if !ok {
+			m.abort("regexp.MustCompile with symbolic pattern")
+		}
+		return nativeObj{v: regexp.MustCompile(p)}
+	}
+	reArg := func(m *Machine, v value, what string) string {
+		s, ok := v.(strV)
+		if !ok {
+			m.abort("regexp: %s is %T", what, v)
+		}
+		cs, ok := s.Concrete()
+		if !ok || s.taint {
+			m.abort("regexp on symbolic %s", what)
+		}
+		return cs
+	}
+	models["(*regexp.Regexp).ReplaceAllString"] = func(m *Machine, c *frame, fn *ssa.Function, a []value) value {
+		re := a[0].(nativeObj).v.(*regexp.Regexp)
+		return mkStr(re.ReplaceAllString(reArg(m, a[1], "source"), reArg(m, a[2], "replacement")))
+	}
+	models["(*regexp.Regexp).MatchString"] = func(m *Machine, c *frame, fn *ssa.Function, a []value) value {
+		re := a[0].(nativeObj).v.(*regexp.Regexp)
+		return mkBool(re.MatchString(reArg(m, a[1], "source")))
+	}
+	models["(*regexp.Regexp).FindString"] = func(m *Machine, c *frame, fn *ssa.Function, a []value) value {
+		re := a[0].(nativeObj).v.(*regexp.Regexp)
+		return mkStr(re.FindString(reArg(m, a[1], "source")))
+	}
 }
+
+// nativeObj wraps a host object handed out by a native model (immutable from the target's view).
+type nativeObj struct{ v interface{} }
 
 func atomicAdd(m *Machine, c *frame, fn *ssa.Function, a []value) value {
 	p := m.ptr(a[0])
